@@ -159,6 +159,13 @@ Definition pc_op (p : pc) : opk :=
   | RInit => KInit | RReset => KOffTurnStoreIdle | RDone => KNone
   end.
 
+(* program inventories: the pcs (hence shared operations) of each thread program, for the source tie *)
+Definition prog_producer : list pc := [PIdle; PReserved false 0; PPublished; PCas; PPush].
+Definition prog_worker (g : bool) : list pc :=
+  [WIdle; WTaken; WDeqSys 0; WDeqUsr 0; WHandler 0 0; WReset 0; WChkUsr 0; WChkSys 0]
+  ++ (if g then [WChkPaused 0] else []) ++ [WRecLoad 0; WRecCas 0; WRecTake 0; WYield; WRepush].
+Definition prog_restarter (r : bool) : list pc := [RSpin; RInit] ++ (if r then [RReset] else []).
+
 Section Dispatch.
   Variables MBs MBu : mbox.
 
@@ -330,3 +337,20 @@ End Dispatch.
 Arguments st {MBs MBu}. Arguments tickets {MBs MBu}. Arguments sysq {MBs MBu}. Arguments usrq {MBs MBu}.
 Arguments paused {MBs MBu}. Arguments ths {MBs MBu}. Arguments nextid {MBs MBu}. Arguments accepted {MBs MBu}.
 Arguments handled {MBs MBu}. Arguments offresets {MBs MBu}.
+
+(* ---- the restart witness (used by C01/Proofs.v and replayed on the real actors) *)
+Definition F := fifo2 0.
+Definition cfg_reset (g : bool) := MkCfg 32 g true.
+
+(* threads: 0 producer, 1 producer, 2 worker, 3 worker, 4 restarter *)
+Definition witness_restart : list label :=
+  [ LSpawn KProducer; LSpawn KProducer; LSpawn KWorker; LSpawn KWorker; LSpawn KRestarter;
+    LStep 4;                                   (* spin: state is Idle, leaves the loop *)
+    LStep 4;                                   (* init: the actor is running again *)
+    LSend 0 false; LStep 0; LStep 0; LStep 0; LStep 0;   (* Tell m0: enqueue, Load, CAS, push *)
+    LStep 2; LStep 2; LStep 2; LStep 2;        (* W1: take, TakeForProcessing, sys deq nil, user deq m0 -> handler *)
+    LStep 4;                                   (* restartSubtree: schedState.reset() *)
+    LSend 1 false; LStep 1; LStep 1; LStep 1; LStep 1;   (* Tell m1 *)
+    LStep 3; LStep 3; LStep 3; LStep 3 ].      (* W2: take, TakeForProcessing, sys deq nil, user deq m1 -> handler *)
+
+Definition two_in_handler {A B} (s : state A B) : bool := 2 <=? cnt in_handler (ths s).
